@@ -33,18 +33,23 @@ import c01_lib as L  # noqa: E402
 HEADS = ["id", "rec", "num", "str", "arr0", "arr1", "obj", "neg", "pipe", "bin", "label", "brk", "fold", "try",
          "ite", "defs", "call", "var", "path"]
 
+# Which Machine variant models the code in /repo:  "asis" = `cartesian` and `Path::combinations` as written
+# (an error item of the left/outer stream is dropped when the right/inner stream is empty);
+# "cartfixed" = after design/fixes/C01-cartesian-left-error.diff has been applied (integrator: switch here).
+MODEL_OF_CODE = os.environ.get("C01_MODEL_OF_CODE", "cartfixed")  # /repo has fix 37351c6
+
 # which constructors of `Ast.Term` are inside the proved fragment (`Core.inFragment`, see Props/C01.lean);
 # the measured number of generated programs inside the fragment comes from the driver (flag F).
 FRAGMENT_DOC = {
     "inside (refinement theorem run_refines_eval_partial)": [
-        "id", "num", "str without interpolation", "arr (some f)", "neg", "pipe l none r", "pipe l (some (var x)) r",
-        "binop comma/alt/or/and/math/cmp", "label", "brk", "tryCatch f (some c)", "ite (any number of elif, optional else)",
+        "id", "num", "str: plain literal", "arr (some f)", "neg", "pipe l none r", "pipe l (some (var x)) r",
+        "binop comma/alt/or/and/math/cmp", "label", "brk", "tryCatch f (some c)", "ite with one `if … then …` and an optional else",
         "defs (any number of definitions, any arity, `$` and filter parameters, nested/shadowed/recursive)",
         "call (locals: arguments, siblings, parents; any arity)", "var",
         "fold reduce/foreach (with and without projection) with a variable pattern",
     ],
     "correspondence only": [
-        "recurse (..)", "str with interpolation / @format", "arr none ([]) and tryCatch f none (compiled to the prelude call !empty)",
+        "recurse (..)", "str with interpolation / @format / empty string", "elif chains", "arr none ([]) and tryCatch f none (compiled to the prelude call !empty)",
         "obj", "destructuring patterns (arr/obj)", "path (index, slice, iterate, optional)",
         "calls of prelude (module 0) definitions and natives", "CallType other than Inline is executed inline (stage C not proved)",
     ],
@@ -108,7 +113,7 @@ def norm_real_table(t):
 
 
 def construct_of(code):
-    for k, pat in (("obj", r"\{"), ("path", r"\]\[|\)\["), ("cmp", r"[<>=!]=|<|>"), ("math", r"[-+*%]")):
+    for k, pat in (("obj", r"\{"), ("cmp", r"[<>=!]=|<|>"), ("math", r"[-+*%]")):
         if re.search(pat, code):
             return k
     return "other"
@@ -137,7 +142,7 @@ def run(ctx):
 
     # ---- models (8 driver processes)
     reqs = [L.run_request(prelude, c) for c in cases]
-    nproc = 8
+    nproc = 4
     step = (len(reqs) + nproc - 1) // nproc
     slices = [reqs[i:i + step] for i in range(0, len(reqs), step)]
     with ThreadPoolExecutor(max_workers=nproc) as ex:
@@ -145,8 +150,10 @@ def run(ctx):
     stat = collections.Counter()
     sel = []
     for c, a in zip(cases, answers):
-        c["m"] = L.split_model(a)
-        st, asis, fx, sem = c["m"]
+        st, asis0, cartfx, fx, sem = L.split_model(a)
+        asis = asis0 if MODEL_OF_CODE == "asis" else cartfx
+        c["m"] = (st, asis, fx, sem)
+        c["cartfx"] = cartfx
         c["frag"] = st.endswith("F")
         stat["model:" + st] += 1
         if st.startswith("ok"):
@@ -207,7 +214,7 @@ def run(ctx):
         if r != sem:
             if r == asis and fx == sem:
                 n_cart += 1
-                k = construct_of(c["code"])
+                k = "cartesian:" + construct_of(c["code"]) if c["cartfx"] == sem else "path"
                 if len(cart_examples) < 5:
                     cart_examples.append(case)
                 ctx.violation("c01:cartesian-err-dropped:" + k,
@@ -292,7 +299,8 @@ def run(ctx):
         "fragment": FRAGMENT_DOC,
         "cartesian_finding_instances": n_cart,
         "cartesian_finding_examples": cart_examples,
-        "exhaustive": "all well-scoped programs over the binder alphabet (DESIGN §13) with <= %d nodes; %d-node programs sampled"
+        "exhaustive": False,
+        "exhaustive_scope": "all well-scoped programs over the binder alphabet (DESIGN §13) with <= %d nodes; %d-node programs sampled"
                       % ((5, 6) if ctx.tier == "thorough" else (4, 5)),
         "fuel": {"non_recursive": L.FUEL_N, "recursive": L.FUEL_R, "output_limit": L.LIMIT},
     })
